@@ -1245,7 +1245,9 @@ func (ex *Exec) allocObligation(fr *Frame, st *State, cp *Term, in ssa.Instructi
 			tagged = true
 		}
 	}
-	if !tagged || cp.ival != nil && cp.ival.IsInt64() && cp.ival.Int64() <= 65536 {
+	// a contract that states an allocation bound asks for the obligation under its own properties
+	explicit := c != nil && c.AllocBound != nil
+	if !(tagged || explicit) || cp.ival != nil && cp.ival.IsInt64() && cp.ival.Int64() <= 65536 {
 		return
 	}
 	var bound *Term = ex.idxLit(4096)
@@ -1255,7 +1257,7 @@ func (ex *Exec) allocObligation(fr *Frame, st *State, cp *Term, in ssa.Instructi
 	}
 	n := len(ex.obls)
 	ex.oblige(st, "alloc", ex.siteWhat(in), ex.le(cp, bound), in, "allocation size not bounded by received data")
-	if len(ex.obls) > n {
+	if len(ex.obls) > n && tagged {
 		ex.obls[n].Props = allocProps
 	}
 }
